@@ -57,6 +57,15 @@ NOTES = {
     "C43-a": "the same values entered again after clear()/popitem()",
     "C45-a": "",
     "C46-a": "streams re-described in mid-run (second descriptor, same name)",
+    # round 2 (fresh agents): the ones the checks missed when they arrived
+    "C02-c": "plan `cleanup_fails` + abort with a reason: a RunStop that says 'fail' must carry the error's text",
+    "C02-d": "C10: deferred pause requested inside a non-resumable section with checkpoints (plan `clearcp_cp`)",
+    "C03-c": "caught by C05 after adding plan `norewind_point` (points taken with rewinding off, delay before the next checkpoint)",
+    "C05-c": "plan `norewind_point`",
+    "C05-d": "plan `clearcp_cfg` (stream re-described after clear_checkpoint) and uninterrupted runs judged too",
+    "C12-d": "plan `late_wait2`: a motion started before open_run and waited for inside the run",
+    "C13-c": "not caught: see the text above the table",
+    "C23-d": "subs_wrapper given the same callable twice",
 }
 
 
